@@ -65,14 +65,18 @@ package connect
 // esc(c): the byte must be escaped (gRPC HTTP/2 spec: Percent-Byte-Unencoded is
 // %x20-%x24 / %x26-%x7E).
 //@ spec esc(c int) bool = c < 32 || c > 126 || c == 37
+// escAt(m, i): m[i] is escaped: esc(m[i]), or a space at either end of m -
+// leading and trailing whitespace is not part of an HTTP field value (RFC 7230
+// 3.2.4, RFC 9113 8.2.1), so unescaped it would not arrive.
+//@ spec escAt(m seq, i int) bool = esc(m[i]) || (m[i] == 32 && (i == 0 || i == |m| - 1))
 // off(m, i): offset in the encoding at which the encoding of m[i] starts.
 //@ spec off(m seq, i int) int
 //@ axiom off_zero: forall m seq :: {off(m, 0)} off(m, 0) == 0
-//@ axiom off_step: forall m seq, i int :: {off(m, i)} 0 <= i && i < |m| ==> off(m, i+1) == off(m, i) + (if esc(m[i]) then 3 else 1)
-//@ spec encAt(out seq, o int, c int) bool = if esc(c) then (out[o] == '%' && out[o+1:o+3] == hex2(c)) else out[o] == c
-//@ spec isEnc(out seq, m seq) bool = |out| == off(m, |m|) && (forall j int :: {off(m, j)} 0 <= j && j < |m| ==> encAt(out, off(m, j), m[j]))
+//@ axiom off_step: forall m seq, i int :: {off(m, i)} 0 <= i && i < |m| ==> off(m, i+1) == off(m, i) + (if escAt(m, i) then 3 else 1)
+//@ spec encAt(out seq, o int, c int, e bool) bool = if e then (out[o] == '%' && out[o+1:o+3] == hex2(c)) else out[o] == c
+//@ spec isEnc(out seq, m seq) bool = |out| == off(m, |m|) && (forall j int :: {off(m, j)} 0 <= j && j < |m| ==> encAt(out, off(m, j), m[j], escAt(m, j)))
 //@ spec printable(s seq) bool = forall p int :: {s[p]} 0 <= p && p < |s| ==> 32 <= s[p] && s[p] <= 126
-//@ spec noEscBefore(m seq, k int) bool = forall j int :: {m[j]} 0 <= j && j < k ==> !esc(m[j])
+//@ spec noEscBefore(m seq, k int) bool = forall j int :: {m[j]} 0 <= j && j < k ==> !escAt(m, j)
 
 //@ lemma off_noesc(m seq, k int): noEscBefore(m, k) ==> off(m, k) == k
 //@   tags C18
@@ -87,26 +91,46 @@ package connect
 //@   by induction on b from a to |m|
 //@   trigger off(m, a), off(m, b)
 
+// An encoding never starts or ends with a space.
+//@ lemma enc_first(e seq, m seq): isEnc(e, m) && |m| > 0 ==> |e| > 0 && e[0] != 32
+//@   tags C18, C02, C05
+//@   trigger isEnc(e, m)
+//@   use off_ge(m, |m|)
+//@   hint off(m, 0) == 0
+//@   hint isEnc(e, m) && |m| > 0 ==> encAt(e, off(m, 0), m[0], escAt(m, 0))
+//@ lemma enc_last(e seq, m seq): isEnc(e, m) && |m| > 0 ==> e[|e| - 1] != 32
+//@   tags C18, C02, C05
+//@   trigger isEnc(e, m)
+//@   use off_ge(m, |m| - 1)
+//@   hint |m| > 0 ==> off(m, |m| - 1 + 1) == off(m, |m| - 1) + (if escAt(m, |m| - 1) then 3 else 1)
+//@   hint isEnc(e, m) && |m| > 0 ==> encAt(e, off(m, |m| - 1), m[|m| - 1], escAt(m, |m| - 1))
+//@   hint isEnc(e, m) && |m| > 0 && escAt(m, |m| - 1) ==> e[off(m, |m| - 1) + 2] == hex2(m[|m| - 1])[1]
+//@ lemma enc_empty(e seq, m seq): isEnc(e, m) && |m| == 0 ==> |e| == 0
+//@   tags C18, C02, C05
+//@   trigger isEnc(e, m)
+
 //@ func grpcPercentEncode(bufferPool, msg) res
-//@   tags C18, C02
+//@   tags C18, C02, C05
 //@   requires bufferPool != nil
-//@   use off_noesc
+//@   use off_noesc, enc_first, enc_last, enc_empty
 //@   ensures isEnc(res, msg)                                       // label: encodes
 //@   ensures printable(res)                                        // label: printable-ascii
+//@   ensures isEnc(res, msg) && (|res| > 0 ==> res[0] != ' ' && res[|res| - 1] != ' ')   // label: never-starts-or-ends-with-a-space-which-no-http-field-value-keeps   // tags: C05, C02
 //@   loop 1:
 //@     invariant 0 <= i && i <= |msg| && noEscBefore(msg, i)
 //@     decreases |msg| - i
 
 //@ func grpcPercentEncodeSlow(bufferPool, msg, offset) res
-//@   tags C18, C02
+//@   tags C18, C02, C05
 //@   requires bufferPool != nil && 0 <= offset && offset <= |msg| && noEscBefore(msg, offset)
-//@   use off_noesc, off_monotone, off_ge
+//@   use off_noesc, off_monotone, off_ge, enc_first, enc_last, enc_empty
 //@   ensures isEnc(res, msg)                                       // label: encodes
 //@   ensures printable(res)                                        // label: printable-ascii
+//@   ensures isEnc(res, msg) && (|res| > 0 ==> res[0] != ' ' && res[|res| - 1] != ' ')   // label: never-starts-or-ends-with-a-space-which-no-http-field-value-keeps   // tags: C05, C02
 //@   loop 1:
 //@     invariant offset <= i && i <= |msg| && out != nil && owned(out)
 //@     invariant |view(out)| == off(msg, i)
-//@     invariant forall j int :: {off(msg, j)} 0 <= j && j < i ==> encAt(view(out), off(msg, j), msg[j])
+//@     invariant forall j int :: {off(msg, j)} 0 <= j && j < i ==> encAt(view(out), off(msg, j), msg[j], escAt(msg, j))
 //@     invariant printable(view(out))
 //@     assigns view(out)
 //@     decreases |msg| - i
